@@ -48,7 +48,7 @@ def option_set(r, cpp):
     if r.random() < 0.15:
         fl += ["--ctypes-prefix", "crate::cty"]
     if cpp:
-        for f, p in (("--enable-cxx-namespaces", 0.4), ("--conservative-inline-namespaces", 0.1), ("--vtable-generation", 0.2), ("--respect-cxx-access-specs", 0.2),
+        for f, p in (("--enable-cxx-namespaces", 0.5), ("--conservative-inline-namespaces", 0.1), ("--vtable-generation", 0.2), ("--respect-cxx-access-specs", 0.2),
                      ("--generate-private-functions", 0.1), ("--generate-deleted-functions", 0.05), ("--generate-pure-virtual-functions", 0.1), ("--no-convert-floats", 0.05)):
             if r.random() < p and f not in fl:
                 fl.append(f)
@@ -123,7 +123,20 @@ def cpp_family(r):
         h += "class C%d%s {\npublic:\n%s};\n" % (i, base, body)
         names.append("C%d" % i)
     h += "int over_free(int);\nint over_free(char);\nint over_free1();\n" if r.random() < 0.3 else "int over_free(int);\nint over_free(char);\n"
+    # records that need one of bindgen's helper types, each alone inside its own (possibly nested) namespace: the helper definition has to
+    # reach the root module whichever namespace first needs it
+    helpers = HELPERS
+    for k, (nm, text) in enumerate(r.sample(helpers, r.choice([1, 1, 2, 3]))):
+        depth = r.choice([1, 1, 2])
+        h += "".join("namespace h%s%d { " % (nm, q) for q in range(depth)) + "\n" + text + "\n" + "}" * depth + "\n"
     return h
+
+
+HELPERS_ = [("fam", "struct Fam { unsigned len; unsigned char payload[]; };"), ("bitf", "struct Bf { unsigned a : 3; unsigned b : 9; int c; };"),
+               ("wrapunion", "struct Dt { ~Dt(); int x; };\nunion Wu { Dt d; int i; };"), ("complex", "struct Cx { double _Complex z; };"),
+               ("f16", "struct Hf { __fp16 h; int i; };"), ("blob", "struct Ob { int a; double b; };\ntypedef int vec4 __attribute__((vector_size(16)));\nstruct Vh { vec4 v; };"),
+               ("bigalign", "struct Al { char c; } __attribute__((aligned(64)));\nstruct Ho { char x; Al a; };")]
+HELPERS = HELPERS_
 
 
 def classify(stderr, closed, flags):
@@ -217,6 +230,9 @@ def run(ck):
             cases.append(("keywords", keyword_header(r, kws), False))
         for i in range(N):
             cases.append(("cpp", cpp_family(r), True))
+        for nm, text in HELPERS:
+            # one helper type alone inside a namespace, with namespaces enabled: its definition must still reach the root module
+            cases.append(("cpp-helper:" + nm, "namespace outer_%s { namespace inner {\n%s\n} }\nint unrelated(int);\n" % (nm, text), True))
         for i in range(N // 2):
             gph = c07mod.Graph(r, r.choice([3, 5, 8]))
             cases.append(("cpp-graphs", gph.render(gph.orders(1)[0]), True))
@@ -235,6 +251,8 @@ def run(ck):
         jobs = []
         for k, (fam, hdr, cpp) in enumerate(cases):
             fl, ed, nightly, closed = option_set(r, cpp)
+            if fam.startswith("cpp-helper:"):
+                fl, ed, closed = ["--enable-cxx-namespaces", "--rust-edition", "2021"], "2021", True
             jobs.append((k, fam, hdr, cpp, fl, ed, closed, None))
         for k, (h, m) in enumerate(muts):
             hfl, cl = c12mod.header_flags(h)
